@@ -546,3 +546,101 @@ Proof.
     apply last_for_some in L. destruct L as [pre [s [post [E [Hs _]]]]]. subst specs.
     rewrite Forall_forall in H. exact (H s (in_elt s pre post) _ _ Hs).
 Qed.
+
+Lemma parse_specs_nodup specs : forall acc l,
+  NoDup (map fst acc) -> parse_specs specs acc = Ok l -> NoDup (map fst l).
+Proof.
+  induction specs as [|s r IH]; intros acc l ND H; cbn [parse_specs] in H.
+  - inversion H; subst. exact ND.
+  - destruct (parse_spec s) as [x|e0|p]; cbn [bind] in H; try discriminate.
+    apply (IH _ _ (proj1 (al_insert_keys _ _ _ ND)) H).
+Qed.
+
+(* ---------------------------------------------------------------- statements of Properties/C16.v *)
+Definition wellformed (s : bytes) : Prop := exists sym n c, wf_spec s sym n c.
+
+Lemma wellformed_iff s : wellformed s <-> exists v, parse_spec s = Ok v.
+Proof.
+  split.
+  - intros [sym [n [c H]]]. exists (sym, n, c). apply spec_accepted_iff_wellformed. exact H.
+  - intros [[[sym n] c] H]. exists sym, n, c. apply spec_accepted_iff_wellformed. exact H.
+Qed.
+
+Lemma Forall_iff {T} (P Q : T -> Prop) l : (forall x, P x <-> Q x) -> Forall P l <-> Forall Q l.
+Proof. intros H. split; apply Forall_impl; intros x; apply H. Qed.
+
+Theorem malformed_rejected_first specs :
+  (forall e, parse_initial_status specs = Rej e <->
+     exists pre s post, specs = pre ++ s :: post /\ Forall wellformed pre /\ spec_rejected s e)
+  /\ ((exists l, parse_initial_status specs = Ok l) <-> Forall wellformed specs)
+  /\ (forall p, parse_initial_status specs <> Panic p).
+Proof.
+  unfold parse_initial_status. split; [|split].
+  - intros e. rewrite parse_specs_rej. split; intros [pre [s [post [E [Hp Hs]]]]]; exists pre, s, post;
+      (split; [exact E|]); (split; [|apply spec_rejected_iff; exact Hs]);
+      revert Hp; apply Forall_impl; intros x; apply wellformed_iff.
+  - rewrite parse_specs_ok. apply Forall_iff. intros x. symmetry. apply wellformed_iff.
+  - apply parse_specs_no_panic.
+Qed.
+
+Theorem last_spec_wins specs l :
+  parse_initial_status specs = Ok l ->
+  NoDup (map fst l)
+  /\ (forall k v, al_find k l = Some v <->
+        exists pre s post, specs = pre ++ s :: post /\ wf_spec s k (fst v) (snd v)
+          /\ Forall (fun x => forall n c, ~ wf_spec x k n c) post)
+  /\ (forall k, al_find k l = None <-> Forall (fun x => forall n c, ~ wf_spec x k n c) specs).
+Proof.
+  unfold parse_initial_status. intros H. split; [|split].
+  - apply (parse_specs_nodup specs [] l); [constructor|exact H].
+  - intros k v. rewrite (parse_specs_find k _ _ _ H). cbn [al_find].
+    assert (E : match last_for k specs with Some v0 => Some v0 | None => None end = last_for k specs)
+      by (destruct (last_for k specs); reflexivity).
+    rewrite E, last_for_some.
+    split; intros [pre [s [post [E1 [Hs Hp]]]]]; exists pre, s, post; (split; [exact E1|]);
+      (split; [apply spec_accepted_iff_wellformed; exact Hs|]);
+      revert Hp; apply Forall_impl; intros x Hx n c; specialize (Hx n c);
+      rewrite spec_accepted_iff_wellformed in *; exact Hx.
+  - intros k. rewrite (parse_specs_find k _ _ _ H). cbn [al_find].
+    assert (E : match last_for k specs with Some v0 => Some v0 | None => None end = last_for k specs)
+      by (destruct (last_for k specs); reflexivity).
+    rewrite E, last_for_none. apply Forall_iff. intros x.
+    split; intros Hx n c; specialize (Hx n c); rewrite spec_accepted_iff_wellformed in *; exact Hx.
+Qed.
+
+(* two specifications: same symbol - the later one replaces the earlier;
+   different symbols (be it only by the case of a letter) - both are kept *)
+Theorem two_specs sym1 sym2 n1 c1 n2 c2 :
+  plain_symbol sym1 -> plain_symbol sym2 ->
+  amount_value n1 -> amount_value c1 -> amount_value n2 -> amount_value c2 ->
+  parse_initial_status [show_spec sym1 n1 c1; show_spec sym2 n2 c2]
+  = Ok (if beqb sym1 sym2 then [(sym2, (n2, c2))] else [(sym1, (n1, c1)); (sym2, (n2, c2))]).
+Proof.
+  intros S1 S2 N1 C1 N2 C2. unfold parse_initial_status. cbn [parse_specs].
+  rewrite !spec_roundtrip by assumption. cbn [bind fst snd al_insert].
+  destruct (beqb sym1 sym2); reflexivity.
+Qed.
+
+(* the round trip with its hypotheses spelled out *)
+Theorem spec_roundtrip_explicit sym n c :
+  ~ In colon sym -> trim sym = sym -> sym <> [] ->
+  d_neg n = false -> d_mant n <= max_mant -> (d_scale n <= 28)%nat ->
+  d_neg c = false -> d_mant c <= max_mant -> (d_scale c <= 28)%nat ->
+  parse_spec (sym ++ colon :: dec_to_string n ++ colon :: dec_to_string c) = Ok (sym, n, c).
+Proof.
+  intros H1 H2 H3 Nn Nm Ns Cn Cm Cs. apply spec_roundtrip.
+  - repeat split; assumption.
+  - split; [apply valid_dec_spec; repeat split; try assumption; rewrite Nn; discriminate|exact Nn].
+  - split; [apply valid_dec_spec; repeat split; try assumption; rewrite Cn; discriminate|exact Cn].
+Qed.
+
+Theorem plain_decimal_text sg w f :
+  all_digits w -> all_digits f -> w ++ f <> [] -> val (w ++ f) <= max_mant -> (length f <= 28)%nat ->
+  parse_dec (sign_bytes sg ++ chars w ++ 46 :: chars f)
+  = Ok (mk_dec (sign_neg sg && negb (val (w ++ f) =? 0)) (val (w ++ f)) (length f))
+  /\ (f = [] -> parse_dec (sign_bytes sg ++ chars w)
+                = Ok (mk_dec (sign_neg sg && negb (val w =? 0)) (val w) 0)).
+Proof.
+  intros Hw Hf Hne Hv Hl. split; [apply parse_plain_fraction; assumption|].
+  intros ->. rewrite app_nil_r in *. apply parse_plain_integer; assumption.
+Qed.
